@@ -72,6 +72,10 @@ def o_pair(v):
     P = [parse_single_name_into_parts(n) for n in split_multiple_persons_names(v)]
     cls = classes_of(persons, P)
     nontrivial = len(P) >= 2 or any(p.von or p.jr for p in P)
+    # the non-strict route of the splitting function: same persons and parts on valid names
+    P0 = [parse_single_name_into_parts(n, strict=False) for n in split_multiple_persons_names(v)]
+    if [_parts(p) for p in P0] != [_parts(p) for p in P]:
+        return (("non-strict-differs-on-valid-names", repr([_parts(p) for p in P0]), repr([_parts(p) for p in P])), nontrivial, cls)
     v2 = " and ".join(p.merge_last_name_first for p in P)
     try:
         P2 = [parse_single_name_into_parts(n) for n in split_multiple_persons_names(v2)]
